@@ -206,7 +206,7 @@ class C03(Property):
             return {"op": "foreign_df", "sess": sess, "version": v, "parts": gen_particles(rng, n),
                     "origins": None if rng.chance(0.12) else [[round(rng.uniform(-20, 20), 3) for _ in range(3)] for _ in range(n)],
                     "px": rng.pick([1.0, 2.6, 0.834, 13.48]), "subset": rng.pick([None, "parity", "one"]),
-                    "extra_cols": rng.chance(0.5), "index": idx}
+                    "extra_cols": rng.chance(0.5), "index": idx, "again": rng.chance(0.35)}
         if op == "emmotl2relion":
             tf, sf = rng.pick(FORMATS[v])
             return {"op": "emmotl2relion", "sess": sess, "src": rng.pick(motls), "out": rng.pick([None] + PATHS),
@@ -743,17 +743,20 @@ class C03(Property):
         # in memory there is no optics block to read the pixel size from: the caller passes it (>= 3.1)
         if v >= 3.1:
             kw["pixel_size"] = step["px"]
-        out = world.call(step["sess"], cryomotl.RelionMotl, df, **kw)
-        world.note("foreign_df v=%s -> %s" % (v, out.describe()))
-        if not out.ok:
-            raise Violation("import_raised", "foreign_df:%s" % out.describe(),
-                            "RelionMotl(<RELION %.1f table in memory, index %s>) raised %r\n%s" % (
-                                v, "non-default" if step.get("index") else "default", out.exc, out.tb))
         exp = self.expected_import(content, v, kw.get("pixel_size"))
-        self.check_import(world, out.value.df, exp, "RelionMotl(table v%.1f, %s index)" % (v, "non-default" if step.get("index") else "default"),
-                          TOL_FILE_POS, TOL_FILE_ROT)
-        world.stats["acks"] += 1
-        world.stats["judged_imports"] += 1
+        # the table is the caller's: it is handed to cryoCAT once, or - the same object - a second time
+        for nth in range(2 if step.get("again") else 1):
+            out = world.call(step["sess"], cryomotl.RelionMotl, df, **kw)
+            world.note("foreign_df v=%s -> %s" % (v, out.describe()))
+            what = "RelionMotl(table v%.1f, %s index)%s" % (v, "non-default" if step.get("index") else "default",
+                                                            ", the same table a second time" if nth else "")
+            if not out.ok:
+                raise Violation("import_raised", "foreign_df:%s" % out.describe(), "%s raised %r\n%s" % (what, out.exc, out.tb))
+            self.check_import(world, out.value.df, exp, what, TOL_FILE_POS, TOL_FILE_ROT)
+            world.stats["acks"] += 1
+            world.stats["judged_imports"] += 1
+            if nth:
+                world.probes["same_table_imported_twice"] += 1
         return []
 
     # ----- pipelines through files -----
